@@ -134,6 +134,36 @@ theorem arc_bend_zero (p : P ℝ) (r : ℝ) (hr : 0 < r) : arcBendEnd RT p 0 r f
   have : sbendLength RT 0 r = 0 := by simp [sbendLength, sbendAngle]
   rw [this]; apply P_ext <;> simp
 
+section degenerate
+open Real Femto.C04 Femto.Wg
+
+/-- a sinusoidal segment with zero lateral and zero vertical offset is the straight line at the entry height and depth, at
+every abscissa and for every curvature factor and frequency -/
+theorem sin_flat (p : P ℝ) (dx fp wy wz x : ℝ) : sinAt RT p dx 0 0 fp wy wz x = ⟨x, p.y, p.z⟩ := by
+  simp [sinAt]
+
+/-- an arc of zero sweep does not move -/
+theorem circ_zero_sweep (p : P ℝ) (r a : ℝ) : circEnd RT p r a a = p := by
+  apply P_ext <;> simp [circEnd, circAt]
+
+/-- every sample of an arc of zero sweep is the start point (the three coincident points the fallback count produces) -/
+theorem circ_zero_sweep_samples (p : P ℝ) (r a : ℝ) (n : Nat) : ∀ q ∈ circSamples RT p r a a n, q = p := by
+  intro q hq
+  simp only [circSamples, linspaceK, List.mem_map, List.mem_range] at hq
+  obtain ⟨t, ⟨i, _, rfl⟩, rfl⟩ := hq
+  apply P_ext <;> simp [circAt]
+
+/-- a coupler with zero lateral offset and zero interaction length does not move; neither does such an interferometer -/
+theorem arc_coupler_zero (p : P ℝ) (r : ℝ) (hr : 0 < r) : arcCouplerEnd RT p 0 r 0 false false = p := by
+  have hadv : ∀ q : P ℝ, advance q (RT.abs 0) = q := by intro q; apply P_ext <;> simp [advance, RT]
+  simp only [arcCouplerEnd, neg_zero, arc_bend_zero _ r hr, hadv]
+
+theorem arc_mzi_zero (p : P ℝ) (r : ℝ) (hr : 0 < r) : arcMziEnd RT p 0 r 0 0 false false = p := by
+  have hadv : ∀ q : P ℝ, advance q (RT.abs 0) = q := by intro q; apply P_ext <;> simp [advance, RT]
+  simp only [arcMziEnd, arc_coupler_zero _ r hr, hadv]
+
+end degenerate
+
 /-- non-vacuity: an accepted call, a rejected NaN, a rejected overflow, a rejected zero feed -/
 example : addPath [] [⟨.fin 1, .fin 2, .fin 0, .fin 5, .fin 0⟩] = .ok [⟨1, 2, 0, 5, 0⟩] := by decide +kernel
 example : addPath [] [⟨.fin 1, .nan, .fin 0, .fin 5, .fin 0⟩] = .error .nonFinite := by decide +kernel
